@@ -5,7 +5,7 @@ from . import session as session_mod
 from . import simdev
 
 MAXDATAS = [4096, 4097, 8192, 65536, 256 * 1024, 1024 * 1024, 5000, 70001]
-REMOTE_REGIMES = ["same", "small", "random", "max", "swap"]
+REMOTE_REGIMES = ["same", "small", "random", "max", "swap"]      # (+ "reuse": opt-in, see simdev._new_remote)
 ID_STARTS = [0, 0, 7, 0x7FFFFFFE, 0xFFFFFFF0, 0xFFFFFFFD, 0xFFFFFFFF]
 FRAGS = ["whole", "one", "random", "minus1"]
 NOISES = [(), ("stale_clse",), ("phantom",), ("stale_clse", "phantom"), ("bg",), ("bg", "phantom", "stale_clse")]
